@@ -311,11 +311,11 @@ def extract_output_style():
 
     # print_string escape arms:  '\"' => write!(f, "\\\"")?,
     i = find_seq(toks, ["fn", "print_string"], find_seq(toks, ["for", "JsonOutputOptions"]))
-    if i < 0:
-        raise ExtractError("output_style.rs: JSON print_string not found")
-    end = find_seq(toks, ["fn", "print_object"], i)
+    end = find_seq(toks, ["fn", "print_object"], i) if i >= 0 else -1
     arms = []
-    k = i
+    k = i if i >= 0 and end >= 0 else 0
+    if i < 0 or end < 0:
+        end = 0
     while k < end:
         if toks[k][0] == "chr" and toks[k + 1][1] == "=" and toks[k + 2][1] == ">" and toks[k + 3][1] == "write":
             close = matching_paren(toks, k + 5)
@@ -324,7 +324,7 @@ def extract_output_style():
             k = close
         k += 1
     if len(arms) < 5:
-        raise ExtractError("output_style.rs: escape arms of print_string not found")
+        arms = None  # not recognised (best effort: the tables come from the probe)
     return csv, text_default, json_default, arms
 
 
@@ -749,131 +749,160 @@ def write_if_changed(path, content):
 
 
 def main():
+    failed = {}
+
+    def attempt(name, fn):
+        try:
+            return fn()
+        except ExtractError as e:
+            failed[name] = str(e)
+        except IndexError:
+            failed[name] = "token stream ended inside the construct"
+        return None
+
+    funcs = attempt("functions", extract_functions)
+    style = attempt("output_style", extract_output_style)
+    csv, text_default, json_default, print_arms = style if style is not None else (None, None, None, None)
+    parse_arms_note = print_ranges_note = ""
     try:
-        funcs = extract_functions()
-        csv, text_default, json_default, print_arms = extract_output_style()
         parse_arms = extract_parser_escapes()
-        cli = extract_cli_defaults()
-        bc = extract_byte_classes()
-        cli_opts, cli_enums = extract_cli_options()
+    except (ExtractError, IndexError) as e:
+        parse_arms = None
+        parse_arms_note = str(e)
+    cli = attempt("cli_defaults", extract_cli_defaults)
+    bc = extract_byte_classes()
+    co = attempt("cli_options", extract_cli_options)
+    cli_opts, cli_enums = co if co is not None else (None, None)
+    try:
         plain_lo, plain_hi, utf8_above = extract_print_ranges()
-    except ExtractError as e:
-        print("EXTRACT-ERROR: " + str(e))
-        sys.exit(3)
+    except (ExtractError, IndexError) as e:
+        plain_lo = plain_hi = utf8_above = None
+        print_ranges_note = str(e)
 
     hdr = "-- GENERATED by extract/extract_tables.py from /repo/src — do not edit.\n"
-    # FunctionTable
-    lines = [hdr, "namespace Jawk.Generated\n",
-             "/-- (name, aliases, min args, max args; `none` = `usize::MAX`) -/",
-             "def functionTable : List (String × List String × Nat × Option Nat) := ["]
-    rows = []
-    for f in funcs:
-        mx = "none" if f["max"] is None else f"some {f['max']}"
-        al = "[" + ", ".join(lean_str(a) for a in f["aliases"]) + "]"
-        rows.append(f"  ({lean_str(f['name'])}, {al}, {f['min']}, {mx})")
-    lines.append(",\n".join(rows))
-    lines.append("]\n")
-    lines.append("/-- every name and alias as code points (kernel-reducible form of `functionTable`) -/")
-    lines.append("def functionNameCodes : List (List Nat) := [")
-    allnames = []
-    for f in funcs:
-        allnames.append(f["name"])
-        allnames.extend(f["aliases"])
-    lines.append(",\n".join("  " + codes(n) for n in allnames))
-    lines.append("]\n")
-    lines.append("/-- (name codes, number of aliases, min, max) per function, kernel-reducible -/")
-    lines.append("def functionSigCodes : List (List Nat × Nat × Nat × Option Nat) := [")
-    lines.append(",\n".join(
-        f"  ({codes(f['name'])}, {len(f['aliases'])}, {f['min']}, " + ("none" if f["max"] is None else f"some {f['max']}") + ")"
-        for f in funcs))
-    lines.append("]\n")
-    lines.append("end Jawk.Generated\n")
-    ch1 = write_if_changed(os.path.join(OUT, "FunctionTable.lean"), "\n".join(lines))
-
-    # DocExamples
-    lines = [hdr, "namespace Jawk.Generated\n",
-             "/-- (function, input, arguments, expected; `none` = nothing) — examples with a literal expectation -/",
-             "def docExamples : List (String × Option String × List String × Option String) := ["]
-    rows = []
+    ch1 = ch2 = False
     skipped = 0
-    for f in funcs:
-        for ex in f["examples"]:
-            if not ex["literal"]:
-                skipped += 1
-                continue
-            inp = "none" if ex["input"] is None else "some " + lean_str(ex["input"])
-            args = "[" + ", ".join(lean_str(a) for a in ex["args"]) + "]"
-            exp = "none" if ex["expect"] == "nothing" else "some " + lean_str(ex["expect"])
-            rows.append(f"  ({lean_str(f['name'])}, {inp}, {args}, {exp})")
-    lines.append(",\n".join(rows))
-    lines.append("]\n")
-    lines.append(f"def docExamplesSkipped : Nat := {skipped}\n")
-    lines.append("end Jawk.Generated\n")
-    ch2 = write_if_changed(os.path.join(OUT, "DocExamples.lean"), "\n".join(lines))
+    allnames = []
+    if funcs is not None:
+        # FunctionTable
+        lines = [hdr, "namespace Jawk.Generated\n",
+                 "/-- (name, aliases, min args, max args; `none` = `usize::MAX`) -/",
+                 "def functionTable : List (String × List String × Nat × Option Nat) := ["]
+        rows = []
+        for f in funcs:
+            mx = "none" if f["max"] is None else f"some {f['max']}"
+            al = "[" + ", ".join(lean_str(a) for a in f["aliases"]) + "]"
+            rows.append(f"  ({lean_str(f['name'])}, {al}, {f['min']}, {mx})")
+        lines.append(",\n".join(rows))
+        lines.append("]\n")
+        lines.append("/-- every name and alias as code points (kernel-reducible form of `functionTable`) -/")
+        lines.append("def functionNameCodes : List (List Nat) := [")
+        allnames = []
+        for f in funcs:
+            allnames.append(f["name"])
+            allnames.extend(f["aliases"])
+        lines.append(",\n".join("  " + codes(n) for n in allnames))
+        lines.append("]\n")
+        lines.append("/-- (name codes, number of aliases, min, max) per function, kernel-reducible -/")
+        lines.append("def functionSigCodes : List (List Nat × Nat × Nat × Option Nat) := [")
+        lines.append(",\n".join(
+            f"  ({codes(f['name'])}, {len(f['aliases'])}, {f['min']}, " + ("none" if f["max"] is None else f"some {f['max']}") + ")"
+            for f in funcs))
+        lines.append("]\n")
+        lines.append("end Jawk.Generated\n")
+        ch1 = write_if_changed(os.path.join(OUT, "FunctionTable.lean"), "\n".join(lines))
 
-    # Presets
-    def text_opts(name, d):
-        miss = "none" if d["missing_value_keyword"] is None else "some " + codes(d["missing_value_keyword"])
-        esc = "[" + ", ".join(codes(e) for e in d["escape_sequance"]) + "]"
-        return (f"def {name} : List Nat × List Nat × List Nat × Bool × List (List Nat) × List Nat × List Nat × List Nat × Option (List Nat) :=\n"
-                f"  ({codes(d['items_seperator'])}, {codes(d['string_prefix'])}, {codes(d['string_postfix'])}, "
-                f"{'true' if d['headers'] else 'false'}, {esc}, {codes(d['null_keyword'])}, {codes(d['true_keyword'])}, "
-                f"{codes(d['false_keyword'])}, {miss})\n")
-    lines = [hdr, "namespace Jawk.Generated\n",
-             "/-- (items separator, string prefix, string postfix, headers, escape sequences, null, true, false, missing) as code points -/",
-             text_opts("csvPresetCodes", csv),
-             text_opts("textDefaultCodes", text_default),
-             f"def jsonDefaultStyle : String := {lean_str(json_default['style'])}",
-             f"def jsonDefaultUtf8 : Bool := {'true' if json_default['utf8_strings'] else 'false'}\n",
-             "/-- `print_string`: (character, text written) as code points -/",
-             "def printEscapeArms : List (Nat × List Nat) := [" + ", ".join(f"({ord(c)}, {codes(t)})" for c, t in print_arms) + "]\n",
-             "/-- `read_string`: (escape letter, byte pushed) -/",
-             "def parseEscapeArms : List (Nat × Nat) := [" + ", ".join(f"({ord(c)}, {v})" for c, v in parse_arms) + "]\n",
-             "def onErrorVariants : List String := [" + ", ".join(lean_str(v) for v in cli["on_error_variants"]) + "]",
-             f"def onErrorDefault : String := {lean_str(cli['on_error_default'])}",
-             f"def skipDefault : Nat := {cli['skip_default']}",
-             f"def rowSeparatorDefault : List Nat := {codes(cli['row_separator_default'])}\n",
-             "/-- JSON `print_string`: characters in this closed range are written as they are -/",
-             f"def printPlainRange : Nat × Nat := ({plain_lo}, {plain_hi})\n",
-             "/-- JSON `print_string`: with `utf8_strings`, characters above this one are written as they are -/",
-             f"def printUtf8Above : Nat := {utf8_above}\n",
-             "end Jawk.Generated\n"]
-    ch3 = write_if_changed(os.path.join(OUT, "Presets.lean"), "\n".join(lines))
+        # DocExamples
+        lines = [hdr, "namespace Jawk.Generated\n",
+                 "/-- (function, input, arguments, expected; `none` = nothing) — examples with a literal expectation -/",
+                 "def docExamples : List (String × Option String × List String × Option String) := ["]
+        rows = []
+        skipped = 0
+        for f in funcs:
+            for ex in f["examples"]:
+                if not ex["literal"]:
+                    skipped += 1
+                    continue
+                inp = "none" if ex["input"] is None else "some " + lean_str(ex["input"])
+                args = "[" + ", ".join(lean_str(a) for a in ex["args"]) + "]"
+                exp = "none" if ex["expect"] == "nothing" else "some " + lean_str(ex["expect"])
+                rows.append(f"  ({lean_str(f['name'])}, {inp}, {args}, {exp})")
+        lines.append(",\n".join(rows))
+        lines.append("]\n")
+        lines.append(f"def docExamplesSkipped : Nat := {skipped}\n")
+        lines.append("end Jawk.Generated\n")
+        ch2 = write_if_changed(os.path.join(OUT, "DocExamples.lean"), "\n".join(lines))
+
+    ch3 = False
+    if style is not None and cli is not None:
+        # Presets
+        def text_opts(name, d):
+            miss = "none" if d["missing_value_keyword"] is None else "some " + codes(d["missing_value_keyword"])
+            esc = "[" + ", ".join(codes(e) for e in d["escape_sequance"]) + "]"
+            return (f"def {name} : List Nat × List Nat × List Nat × Bool × List (List Nat) × List Nat × List Nat × List Nat × Option (List Nat) :=\n"
+                    f"  ({codes(d['items_seperator'])}, {codes(d['string_prefix'])}, {codes(d['string_postfix'])}, "
+                    f"{'true' if d['headers'] else 'false'}, {esc}, {codes(d['null_keyword'])}, {codes(d['true_keyword'])}, "
+                    f"{codes(d['false_keyword'])}, {miss})\n")
+        lines = [hdr, "namespace Jawk.Generated\n",
+                 "/-- (items separator, string prefix, string postfix, headers, escape sequences, null, true, false, missing) as code points -/",
+                 text_opts("csvPresetCodes", csv),
+                 text_opts("textDefaultCodes", text_default),
+                 f"def jsonDefaultStyle : String := {lean_str(json_default['style'])}",
+                 f"def jsonDefaultUtf8 : Bool := {'true' if json_default['utf8_strings'] else 'false'}\n",
+
+                 "def onErrorVariants : List String := [" + ", ".join(lean_str(v) for v in cli["on_error_variants"]) + "]",
+                 f"def onErrorDefault : String := {lean_str(cli['on_error_default'])}",
+                 f"def skipDefault : Nat := {cli['skip_default']}",
+                 f"def rowSeparatorDefault : List Nat := {codes(cli['row_separator_default'])}\n",
+                 "end Jawk.Generated\n"]
+        ch3 = write_if_changed(os.path.join(OUT, "Presets.lean"), "\n".join(lines))
     # byte classes read from the control flow: cross-check material for extract/byte_classes.py
     syn_path = os.environ.get("BYTECLASSES_SYNTACTIC", os.path.join(OUT, "..", "..", "..", "build", "byteclasses-syntactic.json"))
     os.makedirs(os.path.dirname(syn_path), exist_ok=True)
+    bc["print_escapes"] = ([[ord(c), [ord(x) for x in t]] for c, t in print_arms] if print_arms is not None
+                           else {"unrecognised": "escape arms of the JSON print_string"})
+    bc["parse_escapes"] = ([[ord(c), v] for c, v in parse_arms] if parse_arms is not None else {"unrecognised": parse_arms_note})
+    bc["print_ranges"] = ([plain_lo, plain_hi, utf8_above] if plain_lo is not None else {"unrecognised": print_ranges_note})
     open(syn_path, "w").write(json.dumps(bc, indent=1))
     ch5 = False
-    # command line options
-    def clist(names):
-        return "[" + ", ".join(codes(n) for n in names) + "]"
-    lines = [hdr, "namespace Jawk.Generated\n",
-             "/-- (long name and visible aliases as code points, kind: 0 flag, 1 one value, 2 repeatable, 3 optional value), in declaration order -/",
-             "def cliOptions : List (List (List Nat) × Nat) := [",
-             ",\n".join(f"  ({clist(names)}, {kind})" for names, kind, _ in cli_opts),
-             "]\n",
-             "/-- the accepted values of the enumerated options (kebab case) -/",
-             f"def onErrorValues : List (List Nat) := {clist(cli_enums['on_error'])}",
-             f"def outputStyleValues : List (List Nat) := {clist(cli_enums['output_style'])}",
-             f"def jsonStyleValues : List (List Nat) := {clist(cli_enums['json_style'])}\n",
-             "end Jawk.Generated\n"]
-    ch6 = write_if_changed(os.path.join(OUT, "CliOptions.lean"), "\n".join(lines))
-    # the same table for the Rust harness (generator of aliases / arities)
-    def rust_str(x):
-        return '"' + x.replace('\\', '\\\\').replace('"', '\\"') + '"'
-    rl = ["// GENERATED by extract/extract_tables.py from /repo/src - do not edit.",
-          "pub const FUNCTION_TABLE: &[(&str, &[&str], usize, Option<usize>)] = &["]
-    for f in funcs:
-        al = ", ".join(rust_str(a) for a in f["aliases"])
-        mx = "None" if f["max"] is None else f"Some({f['max']})"
-        rl.append(f"    ({rust_str(f['name'])}, &[{al}], {f['min']}, {mx}),")
-    rl.append("];")
-    ch4 = write_if_changed(os.path.join(OUT, "..", "..", "..", "harness", "src", "gen_table.rs"), "\n".join(rl) + "\n")
+    ch6 = False
+    if cli_opts is not None:
+        # command line options
+        def clist(names):
+            return "[" + ", ".join(codes(n) for n in names) + "]"
+        lines = [hdr, "namespace Jawk.Generated\n",
+                 "/-- (long name and visible aliases as code points, kind: 0 flag, 1 one value, 2 repeatable, 3 optional value), in declaration order -/",
+                 "def cliOptions : List (List (List Nat) × Nat) := [",
+                 ",\n".join(f"  ({clist(names)}, {kind})" for names, kind, _ in cli_opts),
+                 "]\n",
+                 "/-- the accepted values of the enumerated options (kebab case) -/",
+                 f"def onErrorValues : List (List Nat) := {clist(cli_enums['on_error'])}",
+                 f"def outputStyleValues : List (List Nat) := {clist(cli_enums['output_style'])}",
+                 f"def jsonStyleValues : List (List Nat) := {clist(cli_enums['json_style'])}\n",
+                 "end Jawk.Generated\n"]
+        ch6 = write_if_changed(os.path.join(OUT, "CliOptions.lean"), "\n".join(lines))
+    ch4 = False
+    if funcs is not None:
+        # the same table for the Rust harness (generator of aliases / arities)
+        def rust_str(x):
+            return '"' + x.replace('\\', '\\\\').replace('"', '\\"') + '"'
+        rl = ["// GENERATED by extract/extract_tables.py from /repo/src - do not edit.",
+              "pub const FUNCTION_TABLE: &[(&str, &[&str], usize, Option<usize>)] = &["]
+        for f in funcs:
+            al = ", ".join(rust_str(a) for a in f["aliases"])
+            mx = "None" if f["max"] is None else f"Some({f['max']})"
+            rl.append(f"    ({rust_str(f['name'])}, &[{al}], {f['min']}, {mx}),")
+        rl.append("];")
+        ch4 = write_if_changed(os.path.join(OUT, "..", "..", "..", "harness", "src", "gen_table.rs"), "\n".join(rl) + "\n")
     unrec = sorted(k for k, v in bc.items() if isinstance(v, dict))
-    summary = {"byte_classes_unrecognised": unrec, "functions": len(funcs), "names": len(allnames),
-               "examples": sum(len(f["examples"]) for f in funcs), "examples_skipped": skipped,
+    status_path = os.path.join(os.path.dirname(syn_path), "extract-status.json")
+    open(status_path, "w").write(json.dumps({"failed": failed}, indent=1))
+    summary = {"failed": failed, "byte_classes_unrecognised": unrec, "functions": len(funcs) if funcs is not None else None, "names": len(allnames),
+               "examples": sum(len(f["examples"]) for f in funcs) if funcs is not None else None, "examples_skipped": skipped,
                "changed": [n for n, c in (("FunctionTable", ch1), ("DocExamples", ch2), ("Presets", ch3), ("harness/gen_table.rs", ch4), ("CliOptions", ch6)) if c]}
-    print("EXTRACT-OK " + json.dumps(summary))
+    print(("EXTRACT-PARTIAL " if failed else "EXTRACT-OK ") + json.dumps(summary))
+    if failed:
+        sys.exit(4)
 
 
 if __name__ == "__main__":
